@@ -1598,10 +1598,6 @@ def shapes_of(src: str):
             out.add("for-not-range")
         if isinstance(n, ast.Constant) and isinstance(n.value, str) and not n.value.isprintable():
             out.add("non-printable-literal")
-        if isinstance(n, ast.BinOp) and isinstance(n.op, ast.Pow):
-            out.add("pow")
-        if isinstance(n, ast.AugAssign) and isinstance(n.op, ast.Pow):
-            out.add("pow")
         if isinstance(n, ast.ExceptHandler) and n.type is not None:
             out.add("named-except")
         if isinstance(n, ast.BinOp) and isinstance(n.op, ast.Add) and _is_strlit(n.left) and _is_strlit(n.right):
